@@ -40,7 +40,8 @@ def observe_run(c):
     model = c["model"]
     out = dict(status="ok", traj=None, error=None)
     try:
-        df, outputs, _ = oracle.run_model(model, c["T"], c["dt"], None, "euler", c["vec"])
+        kw = dict(method="RK45", rtol=1e-10, atol=1e-12) if c.get("solver") == "scipy" else {}
+        df, outputs, _ = oracle.run_model(model, c["T"], c["dt"], None, c.get("solver", "euler"), c["vec"], **kw)
         out["traj"] = {p: np.asarray(df[k], dtype=float).reshape(len(df.index), -1)[:, 0].tolist() for k, p in outputs.items()}
     except Exception as exn:
         out["error"] = f"run: {type(exn).__name__}: {exn}"
@@ -81,6 +82,16 @@ def families(tier, seed):
     for tag, feats, model in gen.delay_families("discrete") + gen.delay_families("gamma"):
         dt = 0.05 if not any(e.get("s") for e in model["edges"]) else 0.01
         out.append(dict(tag=tag + ("/gamma" if dt == 0.01 else "/discrete") + "/run", features=feats, kind="run", model=model, T=0.5, dt=dt))
+    # the adaptive solver on circuits that mix delayed and undelayed plain edges: D2 / D5 and a circuit in which ONE node of a type sends
+    # delayed edges while the other nodes of that type send undelayed ones only
+    dd = {t: (f, m) for t, f, m in gen.delay_families("discrete")}
+    pop = gen.op_li("op", x="r", ins=("r_in",), tau=2.0, x0=0.4, in_defaults={"r_in": 0.0})
+    nodes3 = {f"p{i}": dict(ops=["op"], over={"op/tau": 1.0 + 0.5 * i, "op/r": 0.2 + 0.2 * i}) for i in range(3)}
+    mix = gen.model([pop], nodes3, [gen.edge("p0/op/r", "p1/op/r_in", 1.5, 0.3), gen.edge("p0/op/r", "p2/op/r_in", -0.7, 0.5),
+                                    gen.edge("p1/op/r", "p2/op/r_in", 0.9), gen.edge("p2/op/r", "p0/op/r_in", 0.6), gen.edge("p1/op/r", "p0/op/r_in", -0.4)])
+    for tag, model in [(t, dd[t][1]) for t in dd if t.split("-")[0] in ("D2", "D5")] + [("D11-one-node-delayed-others-undelayed", mix)]:
+        out.append(dict(tag=tag + "/discrete/run-scipy", features=dict(solver="scipy", adaptive_mixed=True), kind="run", model=model, T=1.0, dt=0.05,
+                        solver="scipy", tol=1e-5))
     return out
 
 
@@ -125,7 +136,8 @@ def main():
         else:
             for v in a["traj"]:
                 x, y = np.asarray(a["traj"][v]), np.asarray(b["traj"][v])
-                if x.shape != y.shape or not np.allclose(x, y, rtol=1e-7, atol=1e-10):
+                tol_ = c.get("tol", 1e-7)        # adaptive runs: both settings integrate with tight tolerances, compared at 1e-5
+                if x.shape != y.shape or not np.allclose(x, y, rtol=tol_, atol=tol_ * 1e-3):
                     bad = int(np.argmax(np.abs(x - y))) if x.shape == y.shape else -1
                     rec = dict(clause="trajectory of every frontend variable identical", var=v, row=bad,
                                observed=dict(scalar=float(x[bad]) if bad >= 0 else list(x.shape), vectorized=float(y[bad]) if bad >= 0 else list(y.shape)))
